@@ -308,6 +308,8 @@ def filepass_body(rng, kind):
         hdr = struct.pack("<IIIIIIII", 4, 0, 0x6801, 0x8004, 128, 1, 0, 0) + csp
         return (struct.pack("<HHH", 1, rng.choice([2, 3, 4]), 2) + struct.pack("<II", 4, len(hdr)) + hdr +
                 struct.pack("<I", 16) + rnd(rng, 16) + rnd(rng, 16) + struct.pack("<I", 20) + rnd(rng, 20))
+    if kind == "biff5":          # Excel 5.0/95: key and verifier only, no wEncryptionType (4 bytes)
+        return struct.pack("<HH", rng.getrandbits(16), rng.getrandbits(16))
     if kind == "empty":
         return b""
     if kind == "short":
@@ -340,12 +342,14 @@ def pre_filepass_records(rng, how):
 
 def encrypted_xls(rng, kind=None, how=None, stream_name=None, version=None, big=None, bof_ver=None,
                   filepass_conts=None):
-    kind = kind or rng.choice(["xor", "rc4", "cryptoapi", "garbage", "empty", "short"])
+    kind = kind or rng.choice(["xor", "rc4", "cryptoapi", "biff5", "garbage", "empty", "short"])
     how = how or rng.choice(["direct", "writeprot", "many"])
     stream_name = stream_name or rng.choice(["Workbook", "Book"])
     version = version or rng.choice([3, 4])
     pre = pre_filepass_records(rng, how)
     body = filepass_body(rng, kind)
+    if kind == "biff5":
+        bof_ver = bof_ver or 0x0500
     s = bof(0x0005, bof_ver or rng.choice([0x0600, 0x0500, 0x0600, 0]))
     for t, b, conts in pre:
         s += rec(t, b) + b"".join(rec(0x003C, c) for c in conts)
